@@ -66,6 +66,8 @@ type roomCtx struct {
 	ids        map[string]string
 	order      []string
 	depth      int64
+	lack       map[string]gmsl.PDU
+	prb        []gmsl.PDU
 }
 
 func (c *roomCtx) sender(u string) string {
@@ -79,6 +81,12 @@ func (c *roomCtx) sender(u string) string {
 // known pseudo ID maps to its user, an unknown but well-formed pseudo ID has no user (nil, nil), anything else is
 // an error.
 func userIDForSender(roomID spec.RoomID, senderID spec.SenderID) (*spec.UserID, error) {
+	switch env {
+	case "qnil": // no user is known for any sender
+		return nil, nil
+	case "qerr": // the lookup fails
+		return nil, fmt.Errorf("querier: database error")
+	}
 	if u, err := spec.NewUserID(string(senderID), true); err == nil {
 		return u, nil
 	}
